@@ -330,6 +330,29 @@ func generate() {
 		runCase(tc("refresh", "bearer", recB("HS256", "a", claimsOf('a', api.GUEST, "", "absent", nil)), hs(""), recB("HS256", "r", claimsOf('r', api.GUEST, "", re, nil))))
 	}
 
+	// ---- 8b. ChangeEmail / SetIDEmail (userInfoIsValidEmailUser) on a private BBS ---------
+	bbsUsers := []string{"SYSOP", "CodingMan", "pichu"}
+	for _, target := range append(bbsUsers, "guest") {
+		for _, req := range append(bbsUsers, "guest", "nobody") {
+			var toks []string
+			for _, cx := range []string{ctxEmail(), ctxIDEmail(), ""} {
+				toks = append(toks, recI("e", target, "web", "a@ptt.test", cx))
+			}
+			toks = append(toks, recI("e", req, "web", "a@ptt.test", ctxEmail()), recI("e", req, "web", "a@ptt.test", ctxIDEmail()),
+				recI("a", target, "web"), recI("r", target, "web"), "E", recL("junk"),
+				recB("HS256", "e", claimsOf('e', target, "web", "nr-1", nil)),
+				recB("HS256", "e", claimsOf('e', target, "web", "nr100", map[string]string{"ctx": "s" + hs(ctxIDEmail())})),
+				recB("HS256", "a", claimsOf('e', target, "web", "nr100", nil)),
+				recB("HS256", "w", claimsOf('e', target, "web", "nr100", nil)),
+				recB("none", "n", claimsOf('e', target, "web", "nr100", nil)),
+				recB("HS256", "e", claimsOf('e', target, "web", "nr100", map[string]string{"sub": "absent"})))
+			for _, tk := range toks {
+				runCase(tc("chgemail", hs(req), hs(target), tk))
+				runCase(tc("setidemail", hs(req), hs(target), tk))
+			}
+		}
+	}
+
 	// ---- 9. random tokens ---------------------------------------------------------------
 	n := 2500
 	if thorough {
